@@ -10,6 +10,11 @@ matching_cost_prepare / run_multiscale methods record the call and then delegate
 mode, only record), the real PandoraMachine.check_conf / run / run_prepare / run_exit and the real pandora.run.
 optimization / semantic_segmentation have no built-in method: identity plug-ins 'bounded_stub' are registered in this
 process only (bounded/_pipe.py: stub_plugins) so that the real registries, dispatchers and machine callbacks are used.
+
+Real-callback runs (sections E and F of run()) use plain step keys (E) and suffix-only step keys (F: pipelines in which a
+kind -- validation, filter, refinement, cost_volume_confidence, aggregation, multiscale, ... -- occurs only as
+'<kind>.<suffix>'); besides the trace / state / leftover / second-run clauses they require a non-empty right disparity
+dataset whenever a validation step is configured ("symmetrically on the right data").
 """
 import copy
 import itertools
@@ -136,12 +141,18 @@ def do_run(machine, names, dsets):
     cfg = {"pipeline": copy.deepcopy({n: machine.pipeline_cfg["pipeline"][n] for n in names})}
     machine.trace = []
     try:
-        pandora.run(machine, dsets[0], dsets[1], cfg)
+        _, right = pandora.run(machine, dsets[0], dsets[1], cfg)
     except MachineError as exc:
         return "machine_error", str(exc)[:80], []
     except Exception as exc:  # pylint: disable=broad-except
         return "other:" + type(exc).__name__, str(exc)[:160], []
     probs = []
+    if not machine.stub_run and any(P.kind(n) == "validation" for n in names):
+        # "... and (when a validation step is present) symmetrically on the right data": the real callbacks must have
+        # produced a right disparity dataset (stub callbacks produce no data at all, nothing to look at there)
+        if right is None or len(getattr(right, "data_vars", ())) == 0:
+            probs.append(("C01.run.right", "a validation step is configured but the right disparity dataset returned "
+                                           "by pandora.run is empty (%r)" % (type(right).__name__,)))
     got = [(k, n, s) for ph, k, n, s in machine.trace if ph == "run"]
     exp = expected_run_trace(names, machine.num_scales)
     if got != exp:
@@ -317,7 +328,7 @@ def run(tier, seed):
               "PandoraMachine.matching_cost_prepare"):
         rec.functions.add("pandora.state_machine." + f)
     rec.functions.add("pandora.run")
-    max_len, n_rej_sfx, n_real = {"smoke": (3, 50, 2), "quick": (4, 300, 10)}.get(tier, (5, 3000, 60))
+    max_len, n_rej_sfx, n_real, n_real_sfx = {"smoke": (3, 50, 2, 1), "quick": (4, 300, 10, 6)}.get(tier, (5, 3000, 60, 150))
     with P.quiet(), P.stub_plugins(), tempfile.TemporaryDirectory() as tmp:
         inp = P.write_small_images(tmp)
         imgs, dsets = P.metadata(inp), P.datasets(inp)
@@ -386,14 +397,61 @@ def run(tier, seed):
                      sample={"part": "real", "names": names, "pick": pick} if kinds is every else None)
             report(rec, names, pick, "real", True, problems, "real")
 
+        # F. real step callbacks with SUFFIXED step keys: kinds that occur only under a suffixed name (no plain '<kind>'
+        #    key in the pipeline).  The stubs of C cannot see a run-time lookup of a plain key (e.g. run_prepare looking
+        #    for cfg['pipeline']['validation']); the real callbacks can.
+        n_sfx = 0
+
+        def real_suffixed(kinds, only, pick, part="real-suffix"):
+            """`only`: kinds whose first occurrence is suffixed (later occurrences always are) -> no plain key"""
+            sfx = frozenset(kinds.index(k) for k in only if k in kinds)
+            names = P.names_for(kinds, suffixed=sfx)
+            problems = evaluate(names, pick, imgs, dsets, "real", full=True)
+            rec.case(key=("real-sfx", tuple(names), pick), nontrivial=True,
+                     sample={"part": part, "names": names, "pick": pick}
+                     if tuple(only) == ("validation",) and len(names) == 5 else None)
+            report(rec, names, pick, "real", True, problems, part)
+
+        # F1. every documented path of length <= 4 that contains a validation step, validation suffix-only (exhaustive)
+        for kinds in accepted:
+            if "validation" in kinds and len(kinds) <= 4:
+                real_suffixed(kinds, ("validation",), (seed + len(kinds)) % 4)
+                n_sfx += 1
+        # F2. hand-picked pipelines (the user-guide shapes), one or several kinds suffix-only, with/without validation
+        mc, dsp, val, flt = "matching_cost", "disparity", "validation", "filter"
+        agg, cvc, ref, msc = "aggregation", "cost_volume_confidence", "refinement", "multiscale"
+        fixed = [((mc, dsp, flt, val, flt), (val,)), ((mc, dsp, flt, val, flt), (flt,)),
+                 ((mc, dsp, flt, val, flt), (flt, val)), ((mc, dsp, flt), (flt,)),
+                 ((mc, dsp, ref, val), (ref,)), ((mc, dsp, ref), (ref,)), ((mc, dsp, ref, flt, val), (ref, flt, val)),
+                 ((mc, cvc, dsp, val), (cvc,)), ((mc, cvc, dsp), (cvc,)), ((mc, cvc, cvc, dsp, val), (cvc, val)),
+                 ((mc, agg, dsp, val), (agg,)), ((mc, agg, dsp), (agg,)), ((mc, agg, cvc, dsp, val), (agg, cvc, val)),
+                 ((mc, dsp, val, msc), (val,)), ((mc, dsp, flt, val, msc), (val, msc)),
+                 ((mc, dsp, val), (mc, dsp)), ((mc, dsp, val), (mc, dsp, val)),
+                 ((mc, agg, cvc, dsp, ref, flt, val), (agg, cvc, ref, flt, val)),
+                 (every, (val,)), (every, tuple(P.KINDS))]
+        for i, (kinds, only) in enumerate(fixed):
+            real_suffixed(kinds, only, (seed + i) % 4)
+            n_sfx += 1
+        # F3. sampled documented paths: each present kind suffix-only alone, then all of them
+        for kinds in [pool[i] for i in rng.choice(len(pool), size=min(n_real_sfx, len(pool)), replace=False)]:
+            present = [k for k in P.KINDS if k in kinds]
+            for only in [(k,) for k in present if k not in (mc, dsp)] + [tuple(present)]:
+                real_suffixed(kinds, only, int(rng.integers(0, 4)), part="real-suffix-sample")
+                n_sfx += 1
+
     return rec.result(
         bound="all %d step-kind sequences of length <= %d over the 10 kinds (valid parameters, 4 rotating parameter "
               "variants per kind, 24x32 crop of the cones pair, interval [-3,1]); for each of the %d documented paths: "
               "check,check,run,run,check on one machine with recording stubs, plus '.suffix' variants (each first "
               "occurrence alone, then all); %d random suffixed non-paths; %d documented paths (+ one 11-step pipeline "
-              "using all 10 kinds) run with the REAL step callbacks; both transition tables cell by cell "
-              "(3 states x 10 triggers)"
-              % (sum(10 ** i for i in range(max_len + 1)), max_len, len(accepted), n_rej_sfx, len(chosen) - 1),
+              "using all 10 kinds) run with the REAL step callbacks; %d more REAL-callback histories with suffix-only "
+              "step keys (no plain '<kind>' key: every documented path of length <= 4 containing validation with the "
+              "validation key suffixed; 20 hand-picked pipelines with suffix-only validation / filter / refinement / "
+              "cost_volume_confidence / aggregation / multiscale / all keys, with and without validation; %d sampled "
+              "documented paths with each present kind suffix-only alone and all together); both transition tables "
+              "cell by cell (3 states x 10 triggers)"
+              % (sum(10 ** i for i in range(max_len + 1)), max_len, len(accepted), n_rej_sfx, len(chosen) - 1, n_sfx,
+                 n_real_sfx),
         rule="sequences enumerated in order of length (smallest witness first); repeated kinds are named kind.<n>; a "
              "case is one (step-name list, parameter variant) history on a fresh machine; distinct = distinct "
              "(part, names, variant); non-trivial = at least one step.  accept iff delta* defined, rejection must be "
@@ -401,7 +459,9 @@ def run(tier, seed):
              "(number of processed scales = machine.num_scales as set by run_prepare; C15 polices that number) = "
              "configured steps in order, exactly once, multiscale a no-op on the last scale; stub mode replaces the "
              "bodies of <step>_run/matching_cost_prepare by recorders (run_multiscale stub only moves to the next "
-             "scale), real mode records and delegates.  seed drives the parameter-variant rotation and the samples.")
+             "scale), real mode records and delegates and additionally requires, when a validation step is "
+             "configured, a non-empty right disparity dataset returned by pandora.run (clause C01.run.right).  seed "
+             "drives the parameter-variant rotation and the samples.")
 
 
 def replay(witness):
